@@ -179,10 +179,10 @@ pub fn gen_pools(rng: &mut Rng) -> Pools {
         _ => 3,
     };
     let stem = rng.bytes(le);
-    let ne = rng.range(1, 6) as usize;
+    let ne = if le == 50 { rng.range(1, 3) } else { rng.range(1, 6) } as usize;
     let mut entities: Vec<Vec<u8>> = vec![];
     while entities.len() < ne {
-        let k = if rng.chance(1, 6) { rng.bytes(le) } else { mutate_tail(rng, &stem, 3) };
+        let k = if rng.chance(if le == 50 { 4 } else { 1 }, 6) { rng.bytes(le) } else { mutate_tail(rng, &stem, 3) };
         if !entities.contains(&k) {
             entities.push(k);
         }
